@@ -220,6 +220,14 @@ def cli_options(scen):
     return o
 
 
+def _sing_off():
+    """A Singularity section that is present but switched off (a parameters file written with --enable-singularity and edited):
+    the batch must run exactly as without it."""
+    from jade.models.singularity import SingularityParams
+
+    return SingularityParams(enabled=False, container="/images/not_used.sif")
+
+
 def write_config(scen, root, registry):
     """Write <root>/config.json for the scenario through JADE's public models."""
     os.environ["JADE_REGISTRY"] = registry
@@ -270,6 +278,7 @@ def write_config(scen, root, registry):
             verbose=g.get("verbose", False),
             distributed_submitter=g.get("dsub", True),
             dry_run=scen.get("dry_run", False),
+            **({"singularity_params": _sing_off()} if g.get("sing_off") else {}),
         )
         if scen.get("cli_params") == "file":
             with open(os.path.join(root, "submitter_params.json"), "w") as f:
